@@ -77,17 +77,26 @@ pub(crate) mod verif_value {
                 ev::LOG_DATA[k] = data as *const Value;
                 ev::LOG_DATA_FP[k] = ev::fingerprint(data);
                 ev::LOG_N = k + 1;
-                let (class, out) = if i == ev::MULTI_NODE {
+                let (class, out, is_num, u) = if i == ev::MULTI_NODE {
                     let c = ev::MULTI_CALLS;
                     assert!(c < 6, "per-element node evaluated more often than planned");
                     ev::MULTI_CALLS = c + 1;
-                    (ev::MULTI_CLASS[c], ev::MULTI_VAL[c])
+                    (ev::MULTI_CLASS[c], ev::MULTI_VAL[c], ev::MULTI_IS_NUM[c], ev::MULTI_U64[c])
                 } else {
-                    (ev::OUT_CLASS[i], ev::OUT_VAL[i])
+                    (ev::OUT_CLASS[i], ev::OUT_VAL[i], ev::OUT_IS_NUM[i], ev::OUT_U64[i])
                 };
                 match class {
                     0 => Err(Error::UnexpectedError(String::new())),
-                    1 => Ok(Evaluated::New(crate::verif_support::value_clone_shallow(&*out))),
+                    1 => {
+                        if is_num {
+                            // a fresh number built here from the planned u64: its tag is a constant for CBMC (a clone
+                            // read back through a pointer is not, and then every drop / match on it explores all six
+                            // variants of Value: measured > 300 s vs 30 s)
+                            Ok(Evaluated::New(Value::Number(serde_json::Number::from(u))))
+                        } else {
+                            Ok(Evaluated::New(crate::verif_support::value_clone_shallow(&*out)))
+                        }
+                    }
                     _ => Ok(Evaluated::Raw(&*out)),
                 }
             }
